@@ -811,7 +811,8 @@ def _prep_c09(name):
                 raw.u(null_off[0] + 2 * w, w) == 0 and raw.u(null_off[0] + 3 * w, w) == 0:
             decoy = dict(off=null_off[0], tag=21, val=val)
     return dict(name=name, ok=True, modes=modes, seg_index=p['_index'], dynsec=dsec[0]['_index'],
-                has_hash=DT['HASH'] in tags, has_gnu_hash=DT['GNU_HASH'] in tags, decoy=decoy, cls=raw.cls, bo=raw.bo)
+                has_hash=DT['HASH'] in tags, has_gnu_hash=DT['GNU_HASH'] in tags, decoy=decoy, cls=raw.cls, bo=raw.bo, machine=raw.eh['e_machine'], osabi=data[7],
+                displaceable=elfedit.displace_dynamic_section(data) is not None)
 
 
 def _prep_c09_many(names):
@@ -843,6 +844,19 @@ def _c09_plan(tier, seed):
         if info[n].get('decoy'):
             for k in range(max(2, orders // 4)):
                 plan.append((n, 'zero+decoy', k))
+        # the configuration the quantifier names: a .dynamic section whose offset differs from the segment's (and which links
+        # another string table); the segment view has DT_STRTAB and must not depend on that section
+        if info[n].get('displaceable'):
+            for k in range(2):
+                plan.append((n, 'displaced', k))
+        # a long-lived process: another image of the same machine but another OS ABI (other OS-specific tag set) was read
+        # first; the section view used as reference comes from a pristine process
+        if not n.startswith('synthdyn:'):
+            partners = [m2 for m2 in elig if not m2.startswith('synthdyn:') and m2 != n and info[m2].get('machine') == info[n].get('machine')
+                        and info[m2].get('osabi') != info[n].get('osabi')]
+            for k, m2 in enumerate(partners[:3]):
+                plan.append((n, 'intact+warm:' + m2, k))
+                plan.append((n, 'zero+warm:' + m2, k))
     _ST.update(mode='C09', info=info, elig=elig, plan=plan, tier=tier,
                skipped={n: i['why'] for n, i in info.items() if not i['ok']})
 
@@ -896,6 +910,10 @@ def _c09_exec(spec):
     info = _ST.get('info', {}).get(name) or _prep_c09(name)
     mode = spec['fault']
     variant = None
+    warm = None
+    if '+warm:' in mode:
+        mode, warm = mode.split('+warm:', 1)
+        variant = 'warm'
     if mode.endswith('+decoy'):
         mode = mode.split('+')[0]
         variant = 'decoy'
@@ -909,21 +927,39 @@ def _c09_exec(spec):
         data = bytes(ba)
     r = substream(spec['seed'], 'order')
     noise = bytes(r.getrandbits(8) for _ in range(64))
-    damaged = data if mode == 'intact' else elfedit.drop_section_headers(data, mode, noise)
+    if mode == 'displaced':
+        damaged = elfedit.displace_dynamic_section(data, spec['order'])
+    else:
+        damaged = data if mode == 'intact' else elfedit.drop_section_headers(data, mode, noise)
     if damaged is None:
-        return _skip(spec, 'truncation would cut a PT_LOAD extent')
-    a = _view_a(data, info)
+        return _skip(spec, 'truncation would cut a PT_LOAD extent' if mode != 'displaced' else 'no second string table')
+    if warm:
+        st_a, a = forkpool.isolated(lambda _: _view_a(data, info), None, timeout=60)
+        if st_a != 'ok':
+            return _skip(spec, 'reference view not obtained in a pristine process')
+        try:
+            pe = ELFFile(SimStream(_c09_data(warm)))
+            for sec in pe.iter_sections():
+                if type(sec).__name__ == 'DynamicSection':
+                    list(sec.iter_tags())
+            for sg in pe.iter_segments():
+                if type(sg).__name__ == 'DynamicSegment':
+                    list(sg.iter_tags())
+        except Exception:
+            pass
+    else:
+        a = _view_a(data, info)
     violations = []
     stream = SimStream(damaged)
     log = []
 
-    tagmode = mode + ('+decoy' if variant else '')
+    tagmode = mode + ('+' + variant if variant else '')
 
     def viol(check, expected, observed):
         violations.append(dict(key='%s|%s' % (tagmode, check), check=check, expected=expected, observed=observed))
 
     elf = ELFFile(stream)
-    fired = (elf.num_sections() == 0) != (mode == 'intact')
+    fired = (elf.num_sections() == 0) != (mode in ('intact', 'displaced'))
     seg = elf.get_segment(info['seg_index'])
     if type(seg).__name__ != 'DynamicSegment':
         viol('segment-kind', 'DynamicSegment', type(seg).__name__)
@@ -1029,7 +1065,7 @@ def _c09_exec(spec):
         _truth_check(elf.get_segment(info['seg_index']), truth, viol)
     return dict(spec=spec, violations=violations, digest=pdigest(log, [v['key'] for v in violations]), nontrivial=fired,
                 nt_digest=pdigest(name, mode, queries, p_disp), evaluations=1, sim_time=stream.clock.seq,
-                faults={'shloss_' + mode: [1, int(fired)], **({'decoy_pointer_tag': [1, 1]} if variant else {})},
+                faults={'shloss_' + mode: [1, int(fired)], **({'decoy_pointer_tag': [1, 1]} if variant == 'decoy' else {}), **({'other_osabi_image_read_first': [1, 1]} if warm else {})},
                 probes={'queries': len(queries), 'nsym_known': int(a['syms'] is not None), 'synthetic_image_runs': int(name.startswith('synthdyn:'))},
                 sample=None)
 
@@ -1124,7 +1160,7 @@ def describe(prop):
         rule=('run = (image with PT_DYNAMIC whose dynamic pointers all lie in PT_LOAD file extents, one of 3 section-header-loss faults '
               '{header fields zeroed; + old table overwritten with noise; + file truncated at the old table}, one seeded query order with cursor '
               'displacement) -> DynamicSegment view (tags, strings, symbol count, symbols, name lookups, relocation tables, table offsets) compared field '
-              'for field with the section view of the intact image. All eligible images x 3 faults x 8 (quick) / 64 (thorough) query orders. '
+              'for field with the section view of the intact image. All eligible images x 3 faults x 8 (quick) / 64 (thorough) query orders. Further configurations per image: headers kept (intact), a decoy pointer tag, the .dynamic section header displaced one entry into the table and linked to another string table (displaced), and another corpus image of the same machine but another OS ABI read first in the same process with the reference view taken from a pristine process (+warm). '
               'Non-trivial = the damaged image reports zero sections; distinct by (image, fault, query order, displacement rate)'),
         components=dict(real=['elftools.elf.dynamic (Dynamic, DynamicSegment, _DynamicStringTable)', 'elftools.elf.hash', 'elftools.elf.relocation',
                               'elftools.elf.elffile (address_offsets, segments)'],
